@@ -117,6 +117,53 @@ theorem guardDrop_spec (m : Mode) (items : List GuardItem) (panicking : Bool) (g
         · trivial
         · exact hstep _ (by rfl) (by rfl) _
 
+theorem guardDropO_spec (m : Mode) (items : List GuardItem) (panicking : Bool) (g : HG)
+    (Q : Bool → HG → Prop) (E : Unit → HG → Prop)
+    (hc : g.held.Covers (itemsFp m items))
+    (hQ : ∀ (p' : Bool) (g' : HG), g'.held = g.held.minus (itemsFp m items) → g'.depth = g.depth →
+      Q p' g') :
+    wp (HoldSpec n ro) (guardDropO m items panicking) Q E g := by
+  induction items generalizing g panicking with
+  | nil => exact hQ _ g (by simp [itemsFp, Held.minus_nil]) rfl
+  | cons it items ih =>
+    cases it with
+    | poisonRef p =>
+      simp only [guardDropO]
+      exact wp_nop _ _ _ _ _ (Or.inr (Or.inr (Or.inl ⟨p, rfl⟩))) (ih _ g hc hQ)
+    | leaf x isMutex =>
+      simp only [guardDropO]
+      have hc' : g.held.Covers ([(x, if isMutex then Mode.excl else m)] ++ itemsFp m items) := hc
+      obtain ⟨hc1, hc2⟩ := hc'.append
+      refine ⟨hc1.pos, fun r hr => ?_⟩
+      have hstep : ∀ (g1 : HG), g1.held = g.held.minus [(x, if isMutex then Mode.excl else m)] →
+          g1.depth = g.depth → ∀ pk, wp (HoldSpec n ro) (guardDropO m items pk) Q E g1 := by
+        intro g1 h1 h2 pk
+        apply ih pk g1 (by rw [h1]; exact hc2)
+        intro p' g' a b
+        apply hQ p' g' _ (by rw [b, h2])
+        rw [a, h1]
+        show _ = g.held.minus ([(x, if isMutex then Mode.excl else m)] ++ itemsFp m items)
+        rw [Held.minus_append]
+      cases r with
+      | ok => exact hstep _ (by rfl) (by rfl) _
+      | no => exact absurd rfl hr.1
+      | panic =>
+        show wp (HoldSpec n ro) (if panicking then Prog.abort else guardDropO m items true) Q E _
+        split
+        · trivial
+        · exact hstep _ (by rfl) (by rfl) _
+
+theorem guardDropN_spec (outer : Bool) (m : Mode) (items : List GuardItem) (g : HG)
+    (Q : Bool → HG → Prop) (E : Unit → HG → Prop)
+    (hc : g.held.Covers (itemsFp m items))
+    (hQ : ∀ (p' : Bool) (g' : HG), g'.held = g.held.minus (itemsFp m items) → g'.depth = g.depth →
+      Q p' g') :
+    wp (HoldSpec n ro) (guardDropN outer m items) Q E g := by
+  unfold guardDropN
+  split
+  · exact guardDropO_spec m items false g Q E hc hQ
+  · exact guardDrop_spec m items false g Q E hc hQ
+
 /-! ### marks -/
 
 @[simp] theorem holdUpd_beginBlocking (g : HG) (r : Resp) : holdUpd g (.mark mkBeginBlocking) r = g := by
@@ -398,6 +445,17 @@ theorem guardPhase_spec (C : Ctx) (ses : Session) (u : UserSt) (g : HG)
     · intro p' g2 a b
       apply hk p' g2 _ (by rw [b, h2])
       rw [a, hfp, h1, empty_plus_minus]
+  have hdropN : ∀ (g1 : HG) (k : Bool → Prog Unit (Nat × UserSt)),
+      g1.held = Held.empty.plus (holdsOf (C.shape ses.coll) ses.mode) → g1.depth = 0 →
+      (∀ (p' : Bool) (g2 : HG), g2.held = Held.empty → g2.depth = 0 → wp (HoldSpec n ro) (k p') Q E g2) →
+      wp (HoldSpec n ro) (Prog.bind (guardDropN C.outer ses.mode (guardItems (C.shape ses.coll))) k) Q E g1 := by
+    intro g1 k h1 h2 hk
+    rw [wp_bind]
+    apply guardDropN_spec
+    · rw [hfp, h1]; exact Held.covers_plus _ _
+    · intro p' g2 a b
+      apply hk p' g2 _ (by rw [b, h2])
+      rw [a, hfp, h1, empty_plus_minus]
   have hafter : ∀ (g1 : HG), g1.held = Held.empty.plus (holdsOf (C.shape ses.coll) ses.mode) →
       g1.depth = 0 →
       wp (HoldSpec n ro)
@@ -422,17 +480,17 @@ theorem guardPhase_spec (C : Ctx) (ses : Session) (u : UserSt) (g : HG)
       rw [holdUpd_other _ _ _ (by decide)]
       exact hafter g1 h1' h2'
     | unlock =>
-      apply hdrop false g1 _ h1' h2'
+      apply hdropN g1 _ h1' h2'
       intro p' g2 a b
       split
       · exact wp_nop _ _ _ _ _ (Or.inl rfl) (wp_keyBack _ _ _ _ a (hQ _ _ (by out10) a b))
       · exact wp_keyBack _ _ _ _ a (hQ _ _ (by out10) a b)
     | drop =>
-      apply hdrop false g1 _ h1' h2'
+      apply hdropN g1 _ h1' h2'
       intro p' g2 a b
       exact wp_nop _ _ _ _ _ (Or.inl rfl) (wp_keyBack _ _ _ _ a (hQ _ _ (by out10) a b))
     | ret =>
-      apply hdrop false g1 _ h1' h2'
+      apply hdropN g1 _ h1' h2'
       intro p' g2 a b
       exact wp_nop _ _ _ _ _ (Or.inl rfl) (wp_keyBack _ _ _ _ a (hQ _ _ (by out10) a b))
   · intro g1 h1 h2
